@@ -8,15 +8,30 @@ ROOT = os.path.dirname(os.path.dirname(os.path.abspath(__file__)))
 ALL = ["C%02d" % i for i in range(1, 21)]
 
 # property -> (category, text, design_ref, level_note, technique, engine)
+def E(cat, text, ref, note, tech, engine="tlc+vharness"):
+    return (cat, text, ref, note, tech, engine)
+
+
 CLAIMED = {
-    "C03": (
-        "model_checking",
+    "C02": E("model_checking",
+        "spec/Sem.tla is a big-step call-by-name reference semantics of the core language (locals, functions with "
+        "default/named arguments, objects as layer sequences with self/super/$, visibility, +:, object locals and asserts, "
+        "comprehensions, slices, error/assert, string coercion) written from the language definition. TLC enumerates every "
+        "closed program of six grammar slices (thorough: ~190k programs; quick: seeded subsets), evaluates it with the "
+        "reference semantics and prints source + expected outcome; the implementation must produce the same JSON, and the "
+        "same kind and message for error/assert.",
+        "DESIGN.md §5 C02",
+        "Integers |n| <= 10^6 only; fuel-bounded (fuel exhaustion accepts any non-crash outcome); where operand "
+        "evaluation order decides which of two errors is reported only failure is compared; tailstrict with failing unused "
+        "arguments is outside the domain.",
+        "TLA+ reference interpreter evaluated by TLC over enumerated ASTs + replay into the real evaluator"),
+    "C03": E("model_checking",
         "spec/Heap.tla models GcContext::gc as coded (count/mark/sweep with vector reordering); TLC checks "
         "survivors = reachable-from-external-handles, no dangling handle and idempotence exhaustively for "
         "heaps of 3 (quick) / 4 (thorough) objects. Every explored transition is replayed on the real "
         "collector (state constructed, action applied, survivors compared) and simulated 24-operation "
         "behaviours over 5 objects are stepped through it with the comparison after every operation. "
-        "Evaluator level: corpus and generated programs run under never/default/every-step/periodic/"
+        "Evaluator level: corpus programs run under never/default/every-step/periodic/"
         "explicit collection schedules (hook in maybe_gc); outcomes must be identical, no handle may die, "
         "object count must return to the baseline after one collection.",
         "DESIGN.md §5 C03",
@@ -24,9 +39,110 @@ CLAIMED = {
         "the handles the script names; evaluator-level exactness is observed through object counts only; "
         "heaps larger than the exhaustive bound are sampled by simulation.",
         "TLA+ model of the collector checked by TLC + per-transition and behaviour replay into the real "
-        "GcContext; schedule sweep with outcome/count comparison",
-        "tlc+vharness",
-    ),
+        "GcContext; schedule sweep with outcome/count comparison"),
+    "C04": E("model_checking",
+        "(a) spec/Machine.tla: thunk state machine Pending->InProgress->Done with EvalOnce and DemandedOnly model-checked "
+        "over all abstract thunk graphs; recorded thunk/frames events of real runs are validated by TLC against "
+        "spec/Trace_Machine.tla. (b) spec/Rewrite.tla: generic AST traversal; for every program of the C02 slices and every "
+        "site, the rewrites of the property (name with a local, identity function, one-element array, one-field object, "
+        "dead local / parameter / hidden field) are checked ON THE SPEC to preserve Sem's outcome and then replayed: value, "
+        "error message and std.trace output must be unchanged; probes (site := error) must have the outcome Sem assigns. "
+        "(c) std.trace at every once-instantiated binding site: demanded sites (replacing them by an error changes Sem's "
+        "outcome) print exactly once, the others never.",
+        "DESIGN.md §5 C04",
+        "Demand is defined through the call-by-name reference semantics; sites under functions/comprehensions/object "
+        "extension are excluded from trace counting (instantiated more than once legitimately); order of trace lines is not compared.",
+        "TLC-checked rewrite laws on the reference semantics + replay; trace validation of thunk events against a TLA+ state machine"),
+    "C05": E("model_checking",
+        "spec/Encode.tla: JsonEscape / JsonEncode (layout of manifestJsonEx, default output, toString, minified) and an "
+        "RFC 8259 decoder; TLC checks Decode(Encode(v, settings)) = v, visible-only, sorted keys over a universe with every "
+        "code point 0x00-0xA0 (+ boundary code points) as strings and keys, nesting <= 2/3, hidden fields, dyadic numbers "
+        "incl. -0, x 20 layouts, and emits the expected text: compared exactly with the implementation (library and CLI "
+        "default/-y/-m). Python / TOML / YAML documents are decoded by the target language's own parser (ast.literal_eval, "
+        "tomllib, PyYAML) and compared with the value.",
+        "DESIGN.md §5 C05",
+        "Doubles outside the exact dyadic domain are checked by self round trip (implementation's parseJson, Python float) "
+        "and the RFC 8259 number grammar, not by TLC; PyYAML is YAML 1.1 (documented exclusions).",
+        "TLA+ encoder/decoder with round-trip theorems checked by TLC + exact-text replay; target-language parsers as decoders"),
+    "C06": E("model_checking",
+        "spec/Num.tla reasons about IEEE double arithmetic symbolically on a grid of boundary doubles (+-0, +-2^e, "
+        "+-(2^53-1)*2^e, MAX, subnormals): exact result class (value / finite / overflow / NaN / error) of every operator "
+        "and numeric builtin, literal shapes and radix parsers; rule: overflow or NaN must be an error. TLC enumerates "
+        "operators x grid^arity and arrays; the implementation must agree, and the evaluator hook reports any non-finite "
+        "number that reaches the value stack.",
+        "DESIGN.md §5 C06",
+        "Correct rounding of arbitrary literals and shortest printing are checked against the host's IEEE arithmetic "
+        "(Python float/repr), not by TLC (32-bit integers, no floats).",
+        "symbolic IEEE class arithmetic in TLA+ enumerated by TLC + replay; hook event for non-finite values"),
+    "C07": E("model_checking",
+        "spec/MC_Inherit.tla enumerates triples, 4-chains (every bracketing), identities and objectRemoveKey applications "
+        "over pools of object expressions (self, super.f, super[e], e in super, +:, visibilities, locals, asserts, computed "
+        "and null names, comprehension-built objects, results of objectRemoveKey/mergePatch/prune/mapWithKey). TLC checks on "
+        "Sem that all bracketings agree, that manifestation/length/in/objectHas(All)/objectFields(All) agree on the field "
+        "set, and the objectRemoveKey contract; every bracketing is replayed and compared with the specification and with "
+        "the other bracketings byte for byte.",
+        "DESIGN.md §5 C07",
+        "objectRemoveKey is evaluated under two readings (delete from every layer / snapshot); cases where they differ are "
+        "outside the domain.",
+        "TLC-checked algebra on the reference object model + replay of every bracketing"),
+    "C08": E("model_checking",
+        "spec/Values.tla defines std.equals / std.__compare and the derived operators; TLC checks reflexivity, symmetry, "
+        "transitivity, == iff same JSON, trichotomy, transitivity of <, derived operators and errors for unordered kinds "
+        "over a 64-value universe (pairs and triples) and emits, for every ordered pair, the expected result of ten "
+        "operators; all 40 960 programs are evaluated by the implementation.",
+        "DESIGN.md §5 C08",
+        "Finite value universe; rendering of values as Jsonnet literals in lib/render.py.",
+        "TLC-checked laws on reference equality/order + exhaustive replay"),
+    "C09": E("model_checking",
+        "spec/Static.tla is the static judgement (set of scoping errors); spec/MC_Static.tla composes 40 one-hole contexts "
+        "(every binder kind and syntactic position, dead code included) to depth 2 and fills them with 25 faulty and "
+        "fault-free expressions. The implementation must reject a program at load time iff the set is non-empty, with a "
+        "member of the set; programs that load are evaluated and must never crash on an unbound name.",
+        "DESIGN.md §5 C09",
+        "Contexts and fillers are a finite family; depth 2 is sampled in the quick tier.",
+        "TLA+ static semantics enumerated by TLC + replay into load_source"),
+    "C10": E("model_checking",
+        "spec/Machine.tla (FramesBalanced, WithinLimit, in-progress => infinite recursion) model-checked; spec/Depth.tla "
+        "states the staircase contract between depth d, limit s and outcome for 23 recursion families; the recorded outcome "
+        "matrix of the implementation (3 000 / 30 000 cells, plus depths 5 000-30 000 for native-stack safety) is validated "
+        "by TLC against Trace_Depth; frame events of runs under small limits are validated against Trace_Machine (counter = "
+        "open frames, never negative, zero at exit, StackOverflow exactly at the first step boundary above the limit).",
+        "DESIGN.md §5 C10",
+        "Frames-per-level is implementation defined: the shape of the matrix is constrained, not the threshold.",
+        "TLA+ state machine model-checked + trace validation of recorded frame events and outcome matrices"),
+    "C11": E("model_checking",
+        "spec/Machine.tla HistoryIndependent model-checked over all abstract thunk graphs and request histories (the "
+        "as-coded variant RestoreOnFail=FALSE yields the 2-request counterexample that was fixed). spec/Hist.tla: TLC "
+        "enumerates every history of length 3 (thorough: 4, sampled) over 29 requests on 13 sources sharing an external "
+        "variable and an imported file; each history runs on one long-lived Program, each request also on a fresh one; "
+        "TLC validates every recorded outcome against Trace_Hist (= fresh outcome under the same limit).",
+        "DESIGN.md §5 C11",
+        "Fixed source pool; memoised results may turn a fresh StackOverflow into the value a larger limit gives.",
+        "TLA+ request-layer model + TLC-enumerated histories replayed + trace validation of outcomes"),
+    "C17": E("model_checking",
+        "spec/SortSet.tla defines Sort (unique stable ordered permutation), Uniq, Set, set operations by key, "
+        "MinArray/MaxArray declaratively; TLC checks permutation/ordered/stable/idempotence/upstream-definition laws and "
+        "emits expected results for all arrays of length <= 6-8 over 3-4 keys with unique tags, all pairs of sets over 5 "
+        "keys, and simulated long arrays (25..200, crossing the merge threshold) under identity/projecting/negating keyF.",
+        "DESIGN.md §5 C17",
+        "Long arrays are sampled; error kinds/messages are not compared.",
+        "TLC-checked declarative sort/set contracts + exact replay"),
+    "C18": E("model_checking",
+        "spec/Strings.tla: one reference operator per string builtin over code point sequences with the property's "
+        "identities as TLC-checked theorems (join/split, findSubstr, strip maximality, splitLimit(R), slices, %-width); "
+        "all strings of length <= 3/4 over an alphabet with 1-4 byte characters and a combining mark x index/limit/pattern "
+        "arguments (257k / 2.2M cases).",
+        "DESIGN.md §5 C18",
+        "Fractional arguments, empty separators and upstream-undocumented corners are outside the domain.",
+        "TLC-checked string algebra + exhaustive replay"),
+    "C20": E("model_checking",
+        "spec/Codec.tla: radix parsers, an RFC 8259 decoder, base64, UTF-8 encode/lossy decode, the five escapers with "
+        "their inverses, and a frozen digest table, each with TLC-checked laws; all strings <= 4/5 symbols over a JSON "
+        "alphabet, mutated documents, digit strings with non-digits at every position, byte-class universes; parseYaml must "
+        "equal parseJson where the property claims it and be total elsewhere.",
+        "DESIGN.md §5 C20",
+        "Digests are decided on a 39-row known-answer table (+ hashlib sample); big numbers by class/bracket.",
+        "TLA+ reference codecs with inverse laws checked by TLC + replay"),
 }
 
 NOT_YET = "check not built yet in this round; see DESIGN.md §5 for the planned decision procedure"
